@@ -415,6 +415,21 @@ class C02(Suite):
             wdu = wdu or rng.random() < 0.7
             if g not in names:
                 names = sorted(names + [g])
+        # probes with ONE position bound, aimed at triples some removal may have taken away, asked of the graph that
+        # received the first quad of the store and of the merged view (index paths that iteration and len do not take)
+        firsts = [o for o in ops if o[0] == "add"]
+        if firsts and rng.random() < 0.6:
+            ca0 = firsts[0][2]
+            g0 = 0 if ca0 == "t" or ca0[1] is None else ca0[1][1]
+            for _ in range(rng.choice([1, 2])):
+                t = rng.choice(vocab)
+                k = rng.choice([0, 1, 2, 2])
+                p1 = [t[i] if i == k else None for i in range(3)]
+                ops.append(["triples", p1, "t", [rng.choice(["view", "id"]), g0], False])
+                if rng.random() < 0.6:
+                    ops.append(["triples", p1, "t", None, True])
+            if g0 not in names and g0 < FRESH_BASE:
+                names = sorted(names + [g0])
         return {"ds": is_ds, "wdu": wdu, "names": names, "vocab": vocab, "ops": ops}
 
     # ------------------------------------------------------------ implementation
